@@ -101,6 +101,20 @@ Theorem C07_caption_payload_wellformed : forall legacy ids nodes,
 Proof. exact caption_payload_wellformed. Qed.
 Print Assumptions C07_caption_payload_wellformed.
 
+(* wave 5: SinglePositioningDFXPWriter. Its set transformation (every layout := the one positioning, text-align removed
+   from the styles) is modelled by `single_positioning`; every region= of the resulting document names ONE region,
+   "bottom" or - when the positioning is a layout of its own that creates a region - "r0"; and the document is
+   consistent on a domain phrased on the INPUT (style ids distinct, no written style named like that region).
+   `_partial`: ids / references only; merge_concurrent_captions happens before the model *)
+Theorem C07_single_one_region : forall p d r, In r (all_refs (to_rset (single_positioning p d))) -> r = single_region p.
+Proof. exact single_refs. Qed.
+Print Assumptions C07_single_one_region.
+Theorem C07_single_doc_consistent_partial : forall p d, dom_single p d = true ->
+  let s := summarize (single_positioning p d) in
+  ok_refs (s_ids s) (s_style_ids s) (s_region_ids s) (s_style_refs s) (s_region_refs s) = 0.
+Proof. exact single_doc_consistent. Qed.
+Print Assumptions C07_single_doc_consistent_partial.
+
 (* ---- non-vacuity ------------------------------------------------------------------------------------------------ *)
 Example C07_example_attr :
   attr_out (lit "a""b<c&d") = [39] ++ lit "a""b&lt;c&amp;d" ++ [39] /\
@@ -182,3 +196,16 @@ Example C07_example_style_attrs :
   legacy_recreate_style content [lit "a&b"] [lit "bottom"]
   = [(lit "region", lit "bottom"); (lit "style", lit "a&b"); (lit "tts:color", lit "r&d<")].
 Proof. split; [intros v [<-|[<-|[<-|[<-|[]]]]]; reflexivity|split; vm_compute; reflexivity]. Qed.
+(* single positioning: whatever layouts the set had, one region; a custom positioning gives "r0"; a style called r0
+   is then outside the domain *)
+Example C07_example_single_positioning :
+  let d := mkDset (Some (3, true, true)) [(lit "k1", [(lit "text-align", lit "left"); (lit "color", lit "white")])]
+             [mkDlang (Some (1, true, true))
+                [mkDcap (Some (2, true, true)) (Some [(lit "class", lit "k1")])
+                   [mkDnode (mkRnode (Some (4, false, true)) true) [(lit "color", lit "red")]]]] in
+  dom_single (Some (0, true, true)) d = true /\
+  s_ids (summarize (single_positioning (Some (0, true, true)) d)) = [lit "k1"; lit "bottom"] /\
+  s_region_refs (summarize (single_positioning (Some (0, true, true)) d)) = [lit "bottom"; lit "bottom"; lit "bottom"] /\
+  s_region_ids (summarize (single_positioning (Some (7, true, true)) d)) = [lit "r0"] /\
+  dom_single (Some (7, true, true)) (mkDset None [(lit "r0", [(lit "color", lit "white")])] (ds_langs d)) = false.
+Proof. vm_compute. repeat split. Qed.
